@@ -95,8 +95,13 @@ def check_file(rep, f, rng, quick, layout_recs, rec):
                         ta, tb = tokmap[(off, k)][0], tokmap[(off, k)][1]
                         lookup[(fff.fortran_float(ta), fff.fortran_float(tb))] = (off, k)
                 bad = None
-                sample_rows = range(tab.num_rows) if (tab.num_rows <= 400 or not quick) else \
-                    sorted(set([0, 1, tab.num_rows - 1] + [rng.randrange(tab.num_rows) for _ in range(200)]))
+                if tab.num_rows <= 400 or not quick:
+                    sample_rows = range(tab.num_rows)
+                else:
+                    # a sample, plus every row printed with fewer numbers than the table has columns (blank trailing cells)
+                    short = [r for r in range(tab.num_rows)
+                             if len(watermark.value_tokens(line_of_row[r][1], starts[t])) < tab.num_columns][:300]
+                    sample_rows = sorted(set([0, 1, tab.num_rows - 1] + short + [rng.randrange(tab.num_rows) for _ in range(200)]))
                 for r in sample_rows:
                     off, line = line_of_row[r]
                     ntok = len(watermark.value_tokens(line, starts[t]))
